@@ -185,7 +185,7 @@ def register_graph_level(w):
     w.add_contract(Contract(
         f"{M}:_known_integer_scalar",
         params={"nodes": Seq(Ref(NODE)), "value": Ref(VALUE), "seen": Opt(SetT(Int))},
-        requires=[("onnx_semantics", sem_axioms)],
+        requires=[("axiom:onnx_semantics", sem_axioms)],
         ensures=[("every_runtime_element_equals_result", post_scalar)],
         raises=set(), ret=Opt(Int), props=["C17"], witnesses=["C17_range_bounds_family"],
     ))
@@ -201,7 +201,7 @@ def register_graph_level(w):
     w.add_contract(Contract(
         f"{M}:_known_integer_value_bounds",
         params={"nodes": Seq(Ref(NODE)), "value": Ref(VALUE), "seen": Opt(SetT(Int))},
-        requires=[("onnx_semantics", sem_axioms)],
+        requires=[("axiom:onnx_semantics", sem_axioms)],
         ensures=[("every_runtime_element_within_bounds", post_bounds)],
         raises=set(), ret=Opt(Tup(Int, Int)), props=["C17"], witnesses=["C17_range_bounds_family"],
     ))
@@ -219,7 +219,7 @@ def register_graph_level(w):
     w.add_contract(Contract(
         f"{M}:_cast_roundtrip_known_values_fit",
         params={"nodes": Seq(Ref(NODE)), "source": Ref(VALUE), "source_dtype": Int, "intermediate_dtype": Int},
-        requires=[("onnx_semantics", sem_axioms)],
+        requires=[("axiom:onnx_semantics", sem_axioms)],
         ensures=[("every_runtime_element_fits_intermediate_type", post_fit)],
         raises=set(), ret=Bool, props=["C17"], witnesses=["C17_range_bounds_family"],
     ))
